@@ -6,7 +6,7 @@ PROP = dict(
              quick=dict(sigs_per_abi=120, light_sigs=100), thorough=dict(sigs_per_abi=1500, light_sigs=600)),
         # Part B: rapidcheck harness props/c06.cpp (host execution through hostexec/msc)
         dict(name="args-assignment", harness="c06", replay_match=r"\.case$",
-             quick=dict(cases=320000, max_size=60, workers=16), thorough=dict(cases=1200000, max_size=80, workers=16)),
+             quick=dict(cases=320000, max_size=60, workers=16), thorough=dict(cases=10000000, max_size=80, workers=16, timeout=7200)),
     ],
     rule=("Part A: signatures of 0-32 arguments (int8..int64/uintptr, float, double, 64/128/256/512-bit vectors; 15 % variadic) generated per ABI "
           "{SysV x86-64 (also via kCDecl and as sysv_abi on Windows), Win64 (also ms_abi on Linux), x64 vectorcall, x86-32 cdecl/stdcall/fastcall/"
